@@ -306,6 +306,11 @@ def rule_columns(prog, rep):
         missing = [p for p in ("name", "charge", "radius", "resname") if p not in bound]
         if missing:
             r.bad(f"column|ctor{i}:missing", f"constructor call does not bind {missing}", where)
+    # user-supplied files go through the very same parse loop and handler
+    src = U(fn)
+    r.add("user-files-same-path", "defpath = io.test_dat_file(ff_name) if userff is None else userff" in src
+          and src.count("ForcefieldAtom(") == len(calls) and src.count("sax.parseString(") == 1
+          and "names_path = usernames" in src, "a user-supplied .DAT/.names pair is parsed by the same loop and handler as the built-ins", where)
     # comment lines
     cm = [n for n in walk_no_defs(fn) if isinstance(n, ast.Call) and U(n.func).endswith(".startswith") and n.args
           and isinstance(n.args[0], ast.Constant) and n.args[0].value == "#"]
@@ -343,6 +348,37 @@ def rule_fullmatch(prog, rep):
     r.add("uses-matcher", calls.count("self.find_matching_names") >= 2,
           f"endElement resolves residue patterns through find_matching_names ({calls.count('self.find_matching_names')} uses)",
           f"pdb2pqr/forcefield.py:{ee.lineno} (ForcefieldHandler.endElement)")
+
+
+    # the SAX field bindings of the names handler: element -> attribute, and the alias direction
+    ch = prog.func("forcefield.py", "ForcefieldHandler.characters").node
+    binds = {}
+    for st in ast.walk(ch):
+        if isinstance(st, ast.If) and isinstance(st.test, ast.Compare) and U(st.test.left) == "self.curelement":
+            k = st.test.comparators[0].value if isinstance(st.test.comparators[0], ast.Constant) else None
+            for x in st.body:
+                if isinstance(x, ast.Assign) and U(x.value) == "text":
+                    binds[k] = U(x.targets[0])
+    want = {"residue": "self.newresname", "atom": "self.newatomname", "useatomname": "self.oldatomname", "useresname": "self.oldresname"}
+    r.add("sax-field-bindings", binds == want, f"names-file elements are stored as {binds}; the documented format binds "
+          "<name> of residue/atom to the canonical name and <use*name> to the force field's own name",
+          f"pdb2pqr/forcefield.py:{ch.lineno} (ForcefieldHandler.characters)")
+    se = prog.func("forcefield.py", "ForcefieldHandler.startElement").node
+    ifs = [x for x in se.body if isinstance(x, ast.If)]
+    r.add("sax-name-element", len(ifs) == 1 and U(ifs[0].test) == "name != 'name'" and [U(x) for x in ifs[0].body] == ["self.curelement = name"], "the <name> child does not change the current element (its text is "
+          "filed under the enclosing residue/atom)", f"pdb2pqr/forcefield.py:{se.lineno} (ForcefieldHandler.startElement)")
+    etxt = U(ee)
+    r.add("alias-direction", "self.atommap[self.newatomname] = self.oldatomname" in etxt and "oldname = self.atommap[newname]" in etxt
+          and "self.update_map(newname, oldname, residue.atoms)" in etxt and "if oldname not in residue.atoms:\n    continue" in etxt.replace("        ", ""),
+          "atom aliases map canonical name -> force-field name and copy residue.atoms[old] to the new key only when the old one exists",
+          f"pdb2pqr/forcefield.py:{ee.lineno} (ForcefieldHandler.endElement)")
+    r.add("group-substitution", "fromname = self.oldresname.replace('$group', group)" in etxt and "group = resitem.group(1)" in etxt
+          and "if fromname in self.map:" in etxt, "$group is replaced by the first capture group of the matched canonical name, and only existing "
+          "source residues are copied", f"pdb2pqr/forcefield.py:{ee.lineno} (ForcefieldHandler.endElement)")
+    umt = U(um)
+    r.add("atom-copy", "elif isinstance(fromobj, ForcefieldAtom):\n    map_[toname] = fromobj" in umt.replace("        ", "    ").replace("    elif", "elif") or
+          "map_[toname] = fromobj" in umt, "an atom alias points at the very same parameter object (no copy with edits)",
+          f"pdb2pqr/forcefield.py:{um.lineno} (ForcefieldHandler.update_map)")
 
 
 # ---------------------------------------------------------------------------------- R5
